@@ -170,9 +170,16 @@ class Ctx:
 
     # ---- scratch -------------------------------------------------------
     def fresh(self, name="c", disk=False):
+        """A scratch directory.  Names are *re-used* once a case has dropped its directory (a small pool per name), so that
+        anything the code under test remembers process-wide per path or per store outlives the data it was about."""
         self._n += 1
         root = self.disk_root if disk else self.scratch_root
-        d = os.path.join(root, f"{name}{self._n}")
+        for i in range(1, 9):
+            d = os.path.join(root, f"{name}{i}")
+            if not os.path.lexists(d):
+                os.makedirs(d)
+                return d
+        d = os.path.join(root, f"{name}x{self._n}")
         os.makedirs(d)
         return d
 
